@@ -224,6 +224,9 @@ func (obj *SparseInt8Vector) Slice(i, j int) Vector {
   return obj.SLICE(i, j)
 }
 func (obj *SparseInt8Vector) Swap(i, j int) {
+  if i < 0 || j < 0 || i >= obj.n || j >= obj.n {
+    panic("index out of bounds")
+  }
   obj.values[i], obj.values[j] = obj.values[j], obj.values[i]
 }
 func (obj *SparseInt8Vector) AppendScalar(scalars ...Scalar) Vector {
